@@ -998,7 +998,11 @@ def m_from_raw_parts(ex, site, a):
 @model('str::chars', 'String::chars')
 def m_chars(ex, site, a):
     from .models_iter import IterV
-    return IterV([c for c, off, w in chars_of(ex, items_of(ex, a[0]))], tag='chars')
+    sl = as_slice(ex, a[0])
+    cs = chars_of(ex, sl.items())
+    it = IterV([c for c, off, w in cs], tag='chars')
+    it.aux = (sl, [off for c, off, w in cs])
+    return it
 
 
 @model('str::char_indices')
@@ -1173,3 +1177,26 @@ def m_cstring_as_ptr(ex, site, a):
     v = deref(ex, a[0])
     if isinstance(v, Agg): return Ptr(Cell(v.fields[0]))
     return a[0]
+
+
+@model('char::to_uppercase', 'char::to_lowercase')
+def m_char_to_case(ex, site, a):
+    c = a[0]; up = site.method == 'to_uppercase'
+    if not is_sym(c):
+        t = chr(c).upper() if up else chr(c).lower()
+        return Agg('CaseIter', 0, [[ord(x) for x in t]])
+    if ex.branch(z3.ULT(c, 0x80)):
+        lo, hi, d = (97, 122, -32) if up else (65, 90, 32)
+        return Agg('CaseIter', 0, [[z3.If(z3.And(z3.UGE(c, lo), z3.ULE(c, hi)), c + d, c)]])
+    # Unicode case tables are not encoded: a non-ASCII symbolic char is fixed to the solver's choice on this path (stated)
+    cc = ex.concretize(c)
+    ex.side['concretized_case_char'] = True
+    t = chr(cc).upper() if up else chr(cc).lower()
+    return Agg('CaseIter', 0, [[ord(x) for x in t]])
+
+
+@model('display:CaseIter')
+def d_case_iter(ex, v, opts):
+    out = []
+    for c in v.fields[0]: out += encode_utf8(ex, c)
+    return out
